@@ -143,6 +143,30 @@ def run(tier, seed):
                  ({'xdg': os.path.join(base, 'afile', 'sub'), 'home': None}, True), ({'xdg': '/proc/nonexistent/x', 'home': None}, True),
                  ({'xdg': None, 'home': os.path.join(base, 'afile')}, True), ({'xdg': os.path.join(base, 'dbdir'), 'home': None}, True),
                  ({'xdg': os.path.join(base, 'logdir'), 'home': None}, False), ({'xdg': '', 'home': os.path.join(base, 'good')}, False)]
+        # intact databases at the documented location, in every layout a release of the server can have left behind
+        # (current; legacy without the later columns; an upgrade interrupted between ALTER TABLE and PRAGMA user_version):
+        # they are used as they are - no warning, and the diagnostic their content implies
+        import sqlite3, time as _time
+
+        def mkdb(name, fetching_since, not_found, user_version):
+            d = os.path.join(base, name, 'version-lsp')
+            os.makedirs(d, exist_ok=True)
+            cn = sqlite3.connect(os.path.join(d, 'versions.db'))
+            cols = 'id INTEGER PRIMARY KEY AUTOINCREMENT, registry_type TEXT NOT NULL, package_name TEXT NOT NULL, updated_at INTEGER NOT NULL'
+            cols += ', fetching_since INTEGER' if fetching_since else ''
+            cols += ', not_found INTEGER NOT NULL DEFAULT 0' if not_found else ''
+            cn.execute(f'CREATE TABLE packages ({cols}, UNIQUE(registry_type, package_name))')
+            cn.execute('CREATE TABLE versions (id INTEGER PRIMARY KEY AUTOINCREMENT, package_id INTEGER NOT NULL, version TEXT NOT NULL, FOREIGN KEY (package_id) REFERENCES packages(id) ON DELETE CASCADE, UNIQUE(package_id, version))')
+            cn.execute('CREATE TABLE dist_tags (id INTEGER PRIMARY KEY AUTOINCREMENT, package_id INTEGER NOT NULL, tag_name TEXT NOT NULL, version TEXT NOT NULL, FOREIGN KEY (package_id) REFERENCES packages(id) ON DELETE CASCADE, UNIQUE(package_id, tag_name))')
+            cn.execute("INSERT INTO packages (registry_type, package_name, updated_at) VALUES ('npm', 'lodash', ?)", (int(_time.time() * 1000),))
+            cn.executemany('INSERT INTO versions (package_id, version) VALUES (1, ?)', [('1.0.0',), ('1.0.1',)])
+            cn.execute(f'PRAGMA user_version = {user_version}')
+            cn.commit()
+            cn.close()
+            return {'xdg': os.path.join(base, name), 'home': None, 'intact_db': name}
+        intact = [mkdb('db_current', True, True, 2), mkdb('db_legacy_v0', False, False, 0), mkdb('db_v0_with_columns', True, True, 0),
+                  mkdb('db_v1', True, False, 1), mkdb('db_v1_upgrade_interrupted', True, True, 1)]
+        senvs += [(e, False) for e in intact]
         souts, err = C.run_harness('server', 0, 0, stdin='\n'.join(json.dumps(e) for e, _ in senvs) + '\n', timeout=600)
         if err:
             rep.broke('harness server', err)
@@ -154,6 +178,9 @@ def run(tier, seed):
                 rep.violation(f'the server does not start or stops answering with XDG_DATA_HOME={env["xdg"]!r} HOME={env["home"]!r}: {r["stderr"][:200]!r}', {'environment': env, 'observed': r})
             elif unusable and not r['warned']:
                 rep.violation('no cache can be opened but the user is not told that version checking is unavailable', {'environment': env, 'observed': r})
+            elif env.get('intact_db') and (r['warned'] or not r.get('update_msg')):
+                rep.violation(f'an intact database at the documented location (layout {env["intact_db"]}) is not used: ' +
+                              ('the server says no cache is available' if r['warned'] else 'the diagnostic its content implies is not published'), {'environment': env, 'observed': r})
     finally:
         shutil.rmtree(base, ignore_errors=True)
     rep.cov['streams']['server_process'] = sstats
